@@ -344,7 +344,21 @@ func judgeC10(b *built, el string, frs []declFrag, sep string, in, out string) (
 	if len(decls) == 0 {
 		return "", "", false
 	}
-	if got != exp {
+	sameDecls := func(a, b string) bool {
+		da, ga := splitStyle(a)
+		db, gb := splitStyle(b)
+		if len(ga) > 0 || len(gb) > 0 || len(da) != len(db) {
+			return false
+		}
+		for i := range da {
+			if da[i] != db[i] {
+				return false
+			}
+		}
+		return true
+	}
+	// the statement fixes which declarations survive and their order, not the separator between them
+	if got != exp && !sameDecls(got, exp) {
 		cls := "completeness"
 		if exp == "" {
 			cls = "completeness|should-be-removed"
